@@ -281,8 +281,30 @@ class FormDataParser:
         ):
             raise RequestEntityTooLarge()
 
+        if self.max_form_memory_size is not None:
+            # The declared length may be missing or wrong. Don't read more than
+            # the limit, plus one byte to detect that there is more.
+            remaining = self.max_form_memory_size + 1
+            chunks = []
+
+            while remaining > 0:
+                chunk = stream.read(remaining)
+
+                if not chunk:
+                    break
+
+                chunks.append(chunk)
+                remaining -= len(chunk)
+
+            if remaining <= 0:
+                raise RequestEntityTooLarge()
+
+            data = b"".join(chunks)
+        else:
+            data = stream.read()
+
         items = parse_qsl(
-            stream.read().decode(),
+            data.decode(),
             keep_blank_values=True,
             errors="werkzeug.url_quote",
         )
